@@ -78,10 +78,9 @@ def judge_cmd(case, obs):
     for k, o in enumerate(obs):
         if o["exit"] != 0:
             return v.bad("C16/%s/failed" % xm["cmd"], "`%s` exit %d: %s" % (xm["cmd"], o["exit"], o["stderr"][-200:]))
-        out = o["stdout"]
-        if not out.endswith("\n") or out.count("\n") != 1:
-            return v.bad("C16/%s/output-shape" % xm["cmd"], "stdout is %r" % out[:100])
-        out = out[:-1]
+        out = o["stdout"].rstrip("\r\n")
+        if "\n" in out or not out:
+            return v.bad("C16/%s/output-shape" % xm["cmd"], "stdout is not one line: %r" % o["stdout"][:100])
         if want is None:
             # sign raw over a digest >= n: only validity and recoverability
             d = bytes.fromhex(xm["digest"])
